@@ -165,7 +165,12 @@ def monitorProbed (script : List Cmd) (iters : List Iter) (d : Nat) (answersOnly
       let asked := ((pk.filter fun q => q.k < p.k && q.ifi == p.ifi && !q.resp &&
         q.m.questions.any fun qu => lower qu.name == lower r.name && qu.ty == 255).map (·.t)).eraseDups
       let what := s!"rec={hexOfBytes r.name}/{r.ty} if={p.ifi} t={p.t} probes={probeTimes pk p.ifi p.k r}"
-      if renamedName && probedBy asked p.t then some s!"record-missing-from-first-probe-after-rename {what}"
+      -- D37: after a host rename direct answers carry an SRV record with the OLD target, while
+      -- the announcements (and the probes) carried the new one
+      let staleSrv := r.ty == 33 && (rxs.any fun x => x.resp && x.k ≤ p.k) && pk.any fun q => q.k < p.k && q.resp &&
+        (q.m.answers.any fun r' => r'.ty == 33 && lower r'.name == lower r.name && r'.rdata != r.rdata && r'.ttl > 0)
+      if staleSrv then some s!"old-name-used-after-rename {what}"
+      else if renamedName && probedBy asked p.t then some s!"record-missing-from-first-probe-after-rename {what}"
       else if tiebreak then some s!"probe-resumes-without-wakeup-after-lost-tiebreak {what}"
       else if timeJump then some s!"announced-with-fewer-than-three-probes-late-iteration {what}"
       else if sameInst then some s!"answered-while-address-still-probing {what}"
